@@ -91,5 +91,23 @@ let handle (f : string array) : string =
       end
     done;
     String.trim (Buffer.contents out)
+  | "a" ->
+    (* a <runtype> <keyflag> <key> <chunk> <nchunks> <n> ops... *)
+    let n = int_of_string f.(6) in
+    let ops = List.init n (fun j ->
+      let t = f.(7 + j) in
+      match t.[0] with
+      | 'S' -> OStart
+      | 'R' -> OReset
+      | 'F' -> ORefresh
+      | _ ->
+        (match split_on ':' t with
+         | [_; k; file] -> OWrite (nat_of_int (int_of_string k), ub file)
+         | _ -> ORefresh)) in
+    String.concat ";" (List.map (fun ((cls, natts), names) ->
+      Printf.sprintf "%d,%d,%s"
+        (match cls with Some i -> int_of_nat i | None -> -1)
+        (int_of_nat natts)
+        (String.concat "+" (List.map hb names))) (atrace false s_init ops))
   | _ -> "?"
 
